@@ -80,6 +80,14 @@ def _est(name):
         from sklearn.tree import DecisionTreeClassifier
 
         return DecisionTreeClassifier(random_state=0)
+    if name == "sgd_warm":
+        from sklearn.linear_model import SGDClassifier
+
+        return SGDClassifier(loss="log_loss", warm_start=True, max_iter=3, tol=None, random_state=0)
+    if name == "forest_rs":
+        from sklearn.ensemble import RandomForestClassifier
+
+        return RandomForestClassifier(n_estimators=3, random_state=np.random.RandomState(3))
     raise KeyError(name)
 
 
@@ -123,7 +131,13 @@ CLASSIFIERS = [
     ClfSubject("AnnotatorEnsembleClassifier[soft]", _aec("soft"), multi=True, cost=2),
     ClfSubject("AnnotatorLogisticRegression", _alr, multi=True, cost=6, supervised=True),
 ]
-CLF_BY_NAME = {c.name: c for c in CLASSIFIERS}
+# wrapped estimators whose own fit is NOT history-free (warm start, generator instance as random_state): only the wrapper's fresh copy of
+# the caller's estimator makes a refit independent of earlier fits (used by the refit part of C12)
+STATEFUL_CLASSIFIERS = [
+    ClfSubject("SklearnClassifier[SGD,warm_start]", _sk("sgd_warm"), supervised=True),
+    ClfSubject("SklearnClassifier[RandomForest,RandomState]", _sk("forest_rs"), cost=3, supervised=True),
+]
+CLF_BY_NAME = {c.name: c for c in CLASSIFIERS + STATEFUL_CLASSIFIERS}
 
 
 # --------------------------------------------------------------------------
@@ -180,6 +194,14 @@ def _skr(name, normal=False):
             from sklearn.linear_model import SGDRegressor
 
             est = SGDRegressor(random_state=0, max_iter=5, tol=None)
+        elif name == "sgd_warm":
+            from sklearn.linear_model import SGDRegressor
+
+            est = SGDRegressor(random_state=0, max_iter=3, tol=None, warm_start=True)
+        elif name == "forest_rs":
+            from sklearn.ensemble import RandomForestRegressor
+
+            est = RandomForestRegressor(n_estimators=3, random_state=np.random.RandomState(3))
         cls = SklearnNormalRegressor if normal else SklearnRegressor
         return cls(est, missing_label=ml, random_state=rs)
 
@@ -196,7 +218,11 @@ REGRESSORS = [
     RegSubject("SklearnNormalRegressor[BayesianRidge]", _skr("bayes", True), wrapper=True),
     RegSubject("SklearnNormalRegressor[GaussianProcess]", _skr("gp", True), wrapper=True, cost=2),
 ]
-REG_BY_NAME = {r.name: r for r in REGRESSORS}
+STATEFUL_REGRESSORS = [
+    RegSubject("SklearnRegressor[SGD,warm_start]", _skr("sgd_warm"), probabilistic=False, wrapper=True),
+    RegSubject("SklearnRegressor[RandomForest,RandomState]", _skr("forest_rs"), probabilistic=False, wrapper=True, cost=3),
+]
+REG_BY_NAME = {r.name: r for r in REGRESSORS + STATEFUL_REGRESSORS}
 
 
 def check_complete():
